@@ -3,6 +3,11 @@ import time
 from twisted.internet import reactor
 from twisted.python import log
 from autobahn.twisted import websocket
+try:
+    from autobahn.exception import Disconnected
+except ImportError: # an autobahn old enough not to raise it either
+    class Disconnected(Exception):
+        pass
 from .server import CrowdedError, ReclaimedError, SidedMessage
 from .util import dict_to_bytes, bytes_to_dict
 
@@ -295,7 +300,14 @@ class WebSocketServer(websocket.WebSocketServerProtocol):
         kwargs["type"] = mtype
         kwargs["server_tx"] = time.time()
         payload = dict_to_bytes(kwargs)
-        self.sendMessage(payload, False)
+        try:
+            self.sendMessage(payload, False)
+        except Disconnected:
+            # the closing handshake has begun but connectionLost has not been
+            # delivered yet (we are still a listener): nothing more can be
+            # sent to this client, and the exception must not abort the
+            # broadcast to the remaining listeners
+            pass
 
     def onClose(self, wasClean, code, reason):
         #log.msg("onClose", self, self._mailbox, self._listening)
